@@ -447,12 +447,22 @@ class IrToWasmCompiler:
         "MULI64": "i64.mul",
         "DIVI64": "i64.div_s",
         "REMI64": "i64.rem_s",
+        "ANDI64": "i64.and",
+        "ORI64": "i64.or",
+        "XORI64": "i64.xor",
+        "SHRI64": "i64.shr_s",
+        "SHLI64": "i64.shl",
         # u64
         "ADDU64": "i64.add",
         "SUBU64": "i64.sub",
         "MULU64": "i64.mul",
         "DIVU64": "i64.div_u",
         "REMU64": "i64.rem_u",
+        "ANDU64": "i64.and",
+        "ORU64": "i64.or",
+        "XORU64": "i64.xor",
+        "SHRU64": "i64.shr_u",
+        "SHLU64": "i64.shl",
         # f32
         "ADDF32": "f32.add",
         "SUBF32": "f32.sub",
